@@ -735,6 +735,27 @@ func (e *Env) call(x ECall) Val {
 		es := vs[0].S
 		w.elemSorts[es] = true
 		return Val{T: "((as mk_slc (Slc " + es + ")) (store (store ((as const (Array Int " + es + ")) " + w.zeroSort(es) + ") 0 " + vs[0].T + ") 1 " + vs[1].T + ") 2)", S: "(Slc " + es + ")"}
+	case "snoc":
+		// snoc(s, x): s with x appended (the term append produces for a one-element addition)
+		vs := args()
+		if len(vs) != 2 || !strings.HasPrefix(vs[0].S, "(Slc ") || slcElem(vs[0].S) != vs[1].S {
+			e.fail("snoc(slice, element)")
+		}
+		return Val{T: "((as mk_slc " + vs[0].S + ") (store (slc_arr " + vs[0].T + ") (slc_len " + vs[0].T + ") " + vs[1].T + ") (+ (slc_len " + vs[0].T + ") 1))", S: vs[0].S, G: vs[0].G}
+	case "mupd":
+		vs := args()
+		if len(vs) != 3 || !strings.HasPrefix(vs[0].S, "(MapV ") {
+			e.fail("mupd(mapvalue, key, value)")
+		}
+		return Val{T: "(mk_map (store (map_dom " + vs[0].T + ") " + vs[1].T + " true) (store (map_val " + vs[0].T + ") " + vs[1].T + " " + vs[2].T + "))", S: vs[0].S}
+	case "emptymap":
+		// emptymap(m): the empty map of the sort of m
+		v := e.tr(x.Args[0])
+		if !strings.HasPrefix(v.S, "(MapV ") {
+			e.fail("emptymap(mapvalue)")
+		}
+		ks, es := splitArraySort("(Array " + v.S[len("(MapV "):])
+		return Val{T: "(mk_map ((as const (Array " + ks + " Bool)) false) ((as const (Array " + ks + " " + es + ")) " + w.zeroSort(es) + "))", S: v.S}
 	case "str":
 		// str(b): the string with the bytes of the []byte b
 		v := e.tr(x.Args[0])
